@@ -557,6 +557,14 @@ def NUMERAL_DIGITS(base):
     return Numeral(base, 1, 1, True)
 
 
+def EV(items):
+    """what a set of (escaped) class items - range strings and single characters - denotes: as `re` reads them in brackets"""
+    items = sorted(items)
+    if not items:
+        return set()
+    return TV("[" + "".join(items) + "]")
+
+
 def ISGLOBALWORD(x):
     import pregex.core.classes as cl
     return isinstance(x, (cl.AnyWordChar, cl.AnyButWordChar)) and x._is_global()
